@@ -4,6 +4,7 @@
 //!   skv-harness <prop> gen  --seed S --cases N --tier quick|thorough --out ops.txt --stats stats.json
 //!   skv-harness <prop> exec --ops ops.txt --out impl.txt
 mod c08;
+mod c12;
 mod rng;
 mod util;
 
@@ -61,6 +62,8 @@ fn main() {
     let rc = match (prop, cmd) {
         ("c08", "gen") => c08::gen(&args),
         ("c08", "exec") => c08::exec(&args),
+        ("c12", "gen") => c12::gen(&args),
+        ("c12", "exec") => c12::exec(&args),
         _ => {
             eprintln!("unknown {prop} {cmd}");
             2
